@@ -106,6 +106,15 @@ func (d *DA) GetIDs(_ context.Context, height uint64, _ []byte) (*coreda.GetIDsR
 	case out == "future":
 		return nil, fmt.Errorf("%w: requested %d", coreda.ErrHeightFromFuture, height)
 	case out == "errids":
+		// transient failures come in several kinds; all of them mean "retry this height"
+		switch len(d.FetchLog) % 4 {
+		case 1:
+			return nil, fmt.Errorf("listing: %w", context.DeadlineExceeded)
+		case 2:
+			return nil, coreda.ErrContextDeadline
+		case 3:
+			return nil, fmt.Errorf("listing: %w", coreda.ErrContextCanceled)
+		}
 		return nil, errors.New("rpc failure while listing")
 	case out == "notfound":
 		return nil, coreda.ErrBlobNotFound
@@ -144,6 +153,12 @@ func (d *DA) Get(_ context.Context, ids []coreda.ID, _ []byte) ([]coreda.Blob, e
 	_ = chunk
 	if d.failGet && first/100 == d.failChunk {
 		d.failGet = false
+		switch len(d.FetchLog) % 3 {
+		case 1:
+			return nil, coreda.ErrContextDeadline
+		case 2:
+			return nil, fmt.Errorf("fetching: %w", context.DeadlineExceeded)
+		}
 		return nil, errors.New("rpc failure while fetching")
 	}
 	out := make([]coreda.Blob, 0, len(ids))
